@@ -207,3 +207,62 @@ M.contract(P_PS + ':ParseSource.consume_part_of_current_line',
                'advanced-by-n-within-the-line': lambda self, orig, num_characters, old:
                off_of(self, orig) == old[1] + num_characters and has_line(self),
            }, raises_only=())
+
+M.contract(P_PS + ':ParseSource.consume_initial_space_on_current_line',
+           params=dict(self=PARSE_SOURCE), ghosts=dict(orig=Str),
+           requires=lambda self, orig: RI(self, orig) and has_line(self),
+           old=lambda self, orig: (snap(self), off_of(self, orig)),
+           modifies=dict(self=dict(_column_index=Int)),
+           ensures={
+               'RI': lambda self, orig: RI(self, orig),
+               'moves-forward-within-the-line': lambda self, orig, old:
+               has_line(self) and old[0][0] <= self._column_index and self._column_index <= len(self._current_line_text),
+               'stops-at-end-of-line-or-non-space': lambda self:
+               self._column_index == len(self._current_line_text)
+               or not self._current_line_text[self._column_index].isspace(),
+               'skips-only-space': lambda self, old:
+               all_space(self._current_line_text[old[0][0]:self._column_index]),
+           }, raises_only=())
+M.loop(P_PS + ':ParseSource.consume_initial_space_on_current_line', 0,
+       invariant=lambda self, orig, old:
+       unchanged_but_column(self, old[0])
+       and old[0][0] <= self._column_index and self._column_index <= len(self._current_line_text)
+       and all_space(self._current_line_text[old[0][0]:self._column_index]),
+       modifies={'self._column_index': Int},
+       decreases=lambda self: len(self._current_line_text) - self._column_index)
+
+
+def all_space(s):
+    """every character of s is white space (str.isspace); true of the empty string"""
+    return s == '' or s.isspace()
+
+
+def unchanged_but_column(self, old):
+    return self.source_string == old[1] \
+        and _same_opt(self._current_line_number, old[2]) and _same_opt(self._current_line_text, old[3])
+
+
+M.contract(P_PS + ':ParseSource.is_at_eol__except_for_space', params=dict(self=PARSE_SOURCE), ghosts=dict(orig=Str),
+           inline=True,
+           requires=lambda self, orig: RI(self, orig) and has_line(self),
+           ensures={'rest-of-line-empty-or-space': lambda self, result:
+           iff(result, all_space(self._current_line_text[self._column_index:]))},
+           raises_only=())
+
+M.contract(P_PS + ':ParseSource.catch_up_with',
+           params=dict(self=PARSE_SOURCE, parse_source_that_is_ahead=PARSE_SOURCE), ghosts=dict(orig=Str),
+           requires=lambda parse_source_that_is_ahead, orig: RI(parse_source_that_is_ahead, orig),
+           modifies=dict(self=PS_FRAME),
+           ensures={
+               'same-state-as-the-other': lambda self, parse_source_that_is_ahead:
+               unchanged(self, snap(parse_source_that_is_ahead)),
+               'RI': lambda self, orig: RI(self, orig),
+           }, raises_only=())
+
+M.contract(P_PS + ':ParseSource.copy', params=dict(self=PARSE_SOURCE), ghosts=dict(orig=Str), inline=True,
+           requires=lambda self, orig: RI(self, orig),
+           ensures={
+               'independent-object-in-the-same-state': lambda self, result:
+               result is not self and unchanged(result, snap(self)),
+               'RI': lambda result, orig: RI(result, orig),
+           }, raises_only=())
